@@ -70,6 +70,12 @@ pub fn run_case(ctx: &mut CaseCtx) -> CaseResult {
             // (explicit rotations are ordered with the queued records in async mode, too)
             1 if rng.chance(1, 3) => ops.push(HOp::Trigger),
             2 if !cfg.wmode.is_async() && rng.chance(1, 4) => ops.push(HOp::Reopen),
+            // recursive logging: the inner record may be the one that takes the file over the limit
+            3 if !cfg.wmode.is_async() && rng.chance(1, 2) => {
+                let lo = *rng.pick(&line_lens);
+                let li = *rng.pick(&line_lens);
+                ops.push(HOp::WriteNested(*rng.pick(&LEVELS), lo.saturating_sub(le), li.saturating_sub(le)));
+            }
             _ => {
                 let ll = *rng.pick(&line_lens);
                 ops.push(HOp::Write(*rng.pick(&LEVELS), ll.saturating_sub(le)));
